@@ -1577,6 +1577,14 @@ def __analyse_class(
         LOGGER.error("Could not get members for class %s: %s", type_info.full_name, str(ex))
         return
 
+    # ``EnumType.__dir__`` hides plain methods, look into the class namespace, too.
+    known_names = {name for name, _ in methods_with_names}
+    methods_with_names.extend(
+        (name, value)
+        for name, value in vars(type_info.raw_type).items()
+        if inspect.isfunction(value) and name not in known_names
+    )
+
     for method_name, method in methods_with_names:
         __analyse_method(
             type_info=type_info,
